@@ -1,7 +1,10 @@
 use crate::bases::*;
 use crate::common::{ClusterHeader, CompressionType};
 use crate::reader::{ByteRegion, ByteStream};
+#[cfg(not(jubako_verif_shuttle))]
 use std::sync::{Arc, RwLock};
+#[cfg(jubako_verif_shuttle)]
+use crate::verif::sync::{Arc, RwLock};
 
 enum ClusterReader {
     // The reader on the raw data as stored in the cluster.
@@ -99,6 +102,8 @@ impl Cluster {
             ),
             CompressionType::None => unreachable!(),
         };
+        #[cfg(jubako_verif)]
+        crate::verif::probe("cluster_plain_built", self.data_size.into_u64(), 0);
         *cluster_reader = ClusterReader::Plain(decompress_reader);
         Ok(())
     }
@@ -109,6 +114,8 @@ impl Cluster {
     }
 
     pub fn get_bytes(&self, index: BlobIdx) -> Result<ByteRegion> {
+        #[cfg(jubako_verif)]
+        crate::verif::point("cluster_get_bytes", index.into_u64(), 0);
         self.build_plain_reader()?;
         let offset = self.blob_offsets[index.into_usize()];
         let end_offset = self.blob_offsets[index.into_usize() + 1];
